@@ -199,6 +199,7 @@ outputBufferPairs:
 					return int(t)
 				}
 				o.Emit(map[string]any{"ev": "Balance", "lines": nrec, "inPassed": sum("input_passed_records_total"), "inDropped": sum("input_dropped_records_total"),
+					"inPassedBytes": sum("input_passed_record_bytes_total"), "inDroppedBytes": sum("input_dropped_record_bytes_total"),
 					"procPassed": sum("process_passed_records_total"), "procDropped": sum("process_dropped_records_total")})
 			}
 		})
